@@ -14,7 +14,9 @@ RULE = (
     "GFF3 and GTF files of 1-10 records that have, lack or multiply define ID / Name / Alias / gene_id / transcript_id, "
     "imported under id_spec in {None, 'ID', 'Name', ['ID','Name'], ['Name','ID'], ('Alias','ID'), dict of str or list, "
     "':seqid:' ':source:' ':strand:' ':featuretype:', callables returning None / an attribute-derived string / "
-    "'autoincrement:'+seqid}; merge_strategy error when the reference ids are unique, create_unique otherwise. "
+    "'autoincrement:'+seqid}; merge_strategy error when the reference ids are unique, create_unique otherwise; a labelled share of "
+    "cases delivers the tail through one or two update() calls (same handle, or after deleting one uniquely-keyed feature and "
+    "reopening the file). "
     "Non-trivial = some record needs fall-through or auto-numbering, or the id attribute is multi-valued. Distinct by hash."
 )
 ASSUMPTIONS = [
